@@ -94,7 +94,7 @@ func genC10(seed uint64) *Scenario {
 		if r.Chance(200) {
 			add(Op{Kind: KSetCOE, COE: bp(r.Chance(500))})
 		}
-		op := Op{Kind: KSpec, Doc: doc, OrderSeed: r.U64() | 1, YAML: r.Chance(150), Reorder: r.Chance(150), ReuseDoc: reuse && r.Chance(800), SharedMeta: sharedMeta, FromFile: fromFile}
+		op := Op{Kind: KSpec, Doc: doc, OrderSeed: r.U64() | 1, YAML: r.Chance(250), Reorder: r.Chance(250), ReuseDoc: reuse && r.Chance(800), SharedMeta: sharedMeta, FromFile: fromFile}
 		switch x := r.Intn(10); {
 		case x < 4:
 			op.COE = bp(false)
